@@ -6,6 +6,14 @@
 //   Q <consumers> <items> <yield-seed>     queue alone: consumers block in wait_and_pop, then wake_up()
 // Output per line: the linearised event log  (d<p>.<i> dispatch about to be called, h<p>.<i>@<w> handler begins on worker w, e<p>.<i>@<w> handler ends,
 // X destruction begins, Y destruction done), plus summary flags.
+#ifdef PROBE_WIDEN_CONDWAIT
+#ifndef _GNU_SOURCE
+#define _GNU_SOURCE
+#endif
+#include <dlfcn.h>
+#include <pthread.h>
+#include <unistd.h>
+#endif
 #include "threaded_dispatcher.h"
 #include <atomic>
 #include <chrono>
@@ -25,6 +33,25 @@ static std::string g_log;
 static void logev(const std::string& s) { std::lock_guard<std::mutex> lk(g_log_mutex); g_log += " " + s; }
 
 struct Item { int p; int i; };
+
+#ifdef PROBE_WIDEN_CONDWAIT
+// Schedule perturbation at the one place jitter in user code cannot reach: between the evaluation of a wait
+// predicate and the moment the thread really blocks on the condition variable.  The caller still owns the mutex
+// here, exactly like a thread preempted at that instruction.  (Build without sanitizers, with -rdynamic.)
+static std::atomic<unsigned> g_widen{0};
+extern "C" int pthread_cond_wait(pthread_cond_t* c, pthread_mutex_t* m) {
+    typedef int (*fn_t)(pthread_cond_t*, pthread_mutex_t*);
+    static fn_t real = [] {
+        void* p = dlvsym(RTLD_NEXT, "pthread_cond_wait", "GLIBC_2.3.2");
+        if (!p) p = dlsym(RTLD_NEXT, "pthread_cond_wait");
+        if (!p) { fprintf(stderr, "probe: cannot resolve pthread_cond_wait\n"); _exit(3); }
+        return reinterpret_cast<fn_t>(p);
+    }();
+    unsigned k = g_widen.fetch_add(1);
+    if (k % 3 != 2) usleep(300 + (k * 7919u) % 1500);
+    return real(c, m);
+}
+#endif
 
 static std::atomic<int> g_next_worker{0};
 static int worker_index() { thread_local int idx = -1; if (idx < 0) idx = g_next_worker.fetch_add(1); return idx; }
